@@ -1,0 +1,38 @@
+//! Verification hooks, compiled only with `--cfg maybenot_verif`: lets a test
+//! harness substitute the two hidden nondeterminism sources of the FFI wrapper
+//! (the wall clock read in `on_events` and the OS entropy used in `start`) on
+//! the current thread. With nothing set, behaviour is unchanged.
+
+use std::cell::Cell;
+use std::time::Instant;
+
+thread_local! {
+    static NOW: Cell<Option<Instant>> = const { Cell::new(None) };
+    static SEED: Cell<Option<u64>> = const { Cell::new(None) };
+}
+
+/// Set (or clear) the instant `on_events` reports as the current time.
+pub fn set_now(now: Option<Instant>) {
+    NOW.with(|n| n.set(now));
+}
+
+/// Set (or clear) the seed used for the framework's random source in `start`.
+/// A seeded source never reseeds from the OS.
+pub fn set_seed(seed: Option<u64>) {
+    SEED.with(|s| s.set(seed));
+}
+
+pub(crate) fn now() -> Option<Instant> {
+    NOW.with(|n| n.get())
+}
+
+pub(crate) fn rng() -> Option<crate::Rng> {
+    use rand::SeedableRng;
+    SEED.with(|s| s.get()).map(|seed| {
+        crate::Rng::new(
+            rand_chacha::ChaCha12Core::seed_from_u64(seed),
+            0,
+            rand::rngs::OsRng,
+        )
+    })
+}
